@@ -29,6 +29,8 @@ type reallocCase struct {
 	Workload placedWorkload   `json:"workload"` // the workload being re-allocated
 	Others   []placedWorkload `json:"others"`   // the other workloads on the node (context only)
 	MemDelta int64            `json:"mem_delta"`
+	// AlsoBind: the request says cpu-bind: true next to keep-cpu-bind: true (a client that always states what it wants)
+	AlsoBind bool `json:"request_also_says_cpu_bind,omitempty"`
 }
 
 func coreSet(m map[string]int) string {
@@ -101,7 +103,10 @@ func TestC33(t *testing.T) {
 			rec.Inconclusive("cannot parse workload: %v", err)
 			return
 		}
-		d := wlRequest{KeepBind: true, MemReq: c.MemDelta, MemLim: c.MemDelta}
+		d := wlRequest{KeepBind: true, Bind: c.AlsoBind, MemReq: c.MemDelta, MemLim: c.MemDelta}
+		if c.AlsoBind {
+			rec.Count("requests_with_keep_and_bind", 1)
+		}
 		for a := 0; a < attempts; a++ {
 			if err := pe.install(pl, node, c.Node); err != nil {
 				rec.Count("generator_invalid_state", 1)
@@ -216,7 +221,7 @@ func TestC33(t *testing.T) {
 					continue
 				}
 				others := append(append([]placedWorkload{}, placed[:k]...), placed[k+1:]...)
-				judge(&reallocCase{Node: cur, Workload: w, Others: others, MemDelta: md}, 1)
+				judge(&reallocCase{Node: cur, Workload: w, Others: others, MemDelta: md, AlsoBind: (k+int(md/100))%2 != 0}, 1)
 			}
 		}
 	}
